@@ -428,7 +428,7 @@ func c10SlowStoreOther(c *Ctx, name string, b vsched.Bounds, pass bool) Sched {
 				}
 				return nil
 			}
-			return bodies, check, func() string { return fmt.Sprint(res[0].XStatus, res[1].XStatus, res[2].XStatus) }
+			return bodies, check, func() string { return resSummary(res, true) }
 		},
 	}
 }
